@@ -25,7 +25,7 @@ META = {
             "point, items() yields everything and leaves nothing loaded, re-opening loses nothing. (5) EKO.approx is partially evaluated on "
             "concrete stores covering every ordering (same/different nf at equal scale, scales inside tolerance, 1.5 tolerances away and far, for a relative and for an absolute tolerance ON THE mu^2 KEYS): it "
             "returns the unique point within tolerance with the query's nf, None, or raises when ambiguous."
-            " Histories include the operation 'change a looked-up operator in place and assign the same object again'.",
+            " Histories include the operation 'change a looked-up operator in place and assign the same object again'. Beyond the exhaustive bound a directed family of 64 six-step histories on one point is evaluated: store (either format), drop from memory (unload / unload all / items / re-open), read, store again (either format), drop, read.",
     "note": "The equivalence with a dictionary model is decided for every history up to the stated length over two evolution points "
             "(values symbolic, so for all operator contents); longer histories and more points are not enumerated. OS-level failures are "
             "C38's subject. Nothing is executed: the repository's code is partially evaluated on a model file system.",
@@ -291,12 +291,18 @@ def _histories(chk, src, depth, first=None):
             pmap(chk, _hist_group, [(i, depth) for i in range(len(ops))], jobs=len(ops))
         finally:
             del chk.ok
-        total = sum(len(ops) ** l for l in range(1, depth + 1))
+        total = sum(len(ops) ** l for l in range(1, depth + 1)) + 64
         if not chk.violations:
             chk.floor("groups of histories decided", groups[0], len(ops))
         return total
-    for length in range(1, depth + 1):
-        for hist in itertools.product(ops, repeat=length):
+    # beyond the exhaustive bound, a directed family of six-step histories on one point: store (either format), drop it from memory
+    # (unload / unload everything / items / re-open), read, store again (either format), drop, read - whatever the store remembers
+    # about a key from an earlier read or write must not survive an overwrite that switches the format
+    drops = [("unload", 0), ("unload-all",), ("items",), ("reopen",)]
+    directed = [(a, x, ("get", 0), b, y, ("get", 0)) for a in (("set+err", 0), ("set", 0)) for b in (("set+err", 0), ("set", 0))
+                for x in drops for y in drops]
+    for length in range(1, depth + 2):
+        for hist in (itertools.product(ops, repeat=length) if length <= depth else directed):
             if hist[0] != ops[first]:
                 continue
             n_hist += 1
@@ -380,5 +386,5 @@ def _histories(chk, src, depth, first=None):
                              instance=",".join(s[0] + (str(s[1]) if len(s) > 1 else "") for s in hist))
     if not bad:
         chk.ok("store-agrees-with-a-map-on-every-history", fset.qname,
-               f"{n_hist} histories of up to {depth} operations ({n_steps} steps) over two evolution points", how="exhaustive PE on a model file system")
+               f"{n_hist} histories of up to {depth} operations (and the directed six-step family) ({n_steps} steps) over two evolution points", how="exhaustive PE on a model file system")
     return n_hist
